@@ -241,10 +241,11 @@ CHECKS["C12"] = dict(
         dict(pkg="pkg/rtpfb", entry="HC12History", params=dict(packets=3, twcc=0), require_covers=["phase reported"]),
         dict(pkg="internal/cc", entry="HC12LRU", params=dict(size=3, adds=5), require_covers=["full"]),
         dict(pkg="pkg/rfc8888", entry="HC12StreamLog", params=dict(packets=4), require_covers=["reported"]),
+        dict(pkg="pkg/twcc", entry="HC12ArrivalMap", params=dict(ops=3), flags=["-maxsteps", "80000000", "-unwind", "70000"], require_covers=["culled"]),
     ],
     level_note="PARTIAL CLAIM: resource invariants of individual containers (sizes after an operation, equal sizes after two equal phases), decided on the engine's explicit heap; not measured memory, not GC reachability, not goroutine stacks, and only the containers listed. 'Does not grow with the number of packets' is claimed only as 'two successive equal phases leave equal container sizes' for the rtpfb history and as fixed bounds for the LRU and the RFC 8888 stream log.",
-    bounds=dict(quick="rtpfb history: two phases of 3 sent+acknowledged+reported packets (TWCC keyed / SSRC+sequence keyed, any base sequence number): all three maps empty after each report; gcc send history LRU of size 3: every sequence of 5 adds over 10 keys: length <= 3, list and index agree; RFC 8888 stream log: every sequence of 4 adds (offsets 0..5) then a report with budget 1..6: entries <= budget and none below the report pointer",
+    bounds=dict(quick="rtpfb history: two phases of 3 sent+acknowledged+reported packets (TWCC keyed / SSRC+sequence keyed, any base sequence number): all three maps empty after each report; gcc send history LRU of size 3: every sequence of 5 adds over 10 keys: length <= 3, list and index agree; RFC 8888 stream log: every sequence of 4 adds (offsets 0..5) then a report with budget 1..6: entries <= budget and none below the report pointer; TWCC arrival-time map: every sequence of 3 operations out of {add with a jump of +1,+5,+200,+9000,+40000,-3,-300; cull} from a fixed start, then EraseTo: capacity a power of two in [128, 2^15], range <= capacity, capacity <= max(128, 4*range) after each adjustment, stored entries read back (this job is a case-split enumeration: no symbolic data)",
                 thorough="same"),
-    outside=["receiveLog/RTPBuffer/receiverStream (fixed-size by construction; allocation-free steps not checked)", "TWCC arrival-time map capacity", "stats recorder report lists", "jitter buffer and pacer queues", "collectability after Unbind/Close", "bytes of heap"],
+    outside=["receiveLog/RTPBuffer/receiverStream (fixed-size by construction; allocation-free steps not checked)", "stats recorder report lists", "jitter buffer and pacer queues", "collectability after Unbind/Close", "bytes of heap"],
     assumptions=["Go maps modelled as entry lists"],
 )
